@@ -293,6 +293,17 @@ def pool_codec(ctx):
         ctx.check(ok, R, "low length word, then refcount", "", "write_pool does not write (len & 0xffff) followed by the refcount: low %s refcount %s" % (
             [w[1][1] for w in lo], [w[1][1] for w in rc]), g.loc(), fn=g.name)
 
+    hdr = [args for b, n, args, t in symcalls(prog, g, Sg) if n.endswith("CodePage::id")]
+    ctx.check(len(hdr) == 1 and hdr[0][0] == "&*p1.codepage", R, "pool header carries the pool's own code page id", str(hdr),
+              "write_pool takes the header's code page id from %s, not from self.codepage" % hdr, g.loc(), fn=g.name)
+    bd = prog.fn(SP + "StringPoolBuilder::build_from_data")
+    Sb = Sym(prog, bd)
+    dec = [args for b, n, args, t in symcalls(prog, bd, Sb) if n.endswith("CodePage::decode")]
+    ctx.check(len(dec) == 1 and dec[0][0] == "&p1.codepage", R, "pool strings are decoded with the header's code page", str([a[0] for a in dec]),
+              "build_from_data decodes with %s" % [a[0] for a in dec], bd.loc(), fn=bd.name)
+    fid = [args for b, n, args, t in symcalls(prog, f, S) if n.endswith("CodePage::from_id")]
+    ctx.check(len(fid) == 1 and "BitAnd (Not c:%d)" % bit in fid[0][0], R, "header code page id is looked up after clearing the flag bit", "", "read_from_pool looks up %s" % [a[0][:80] for a in fid], f.loc(), fn=f.name)
+
     R2 = "POOL-SIB"
     ctx.rule(R2, "write_pool and write_data iterate the same field (self.strings), unfiltered, and encode with self.codepage; the length word is the length of "
                  "the very encoding write_data emits")
